@@ -65,7 +65,7 @@ def golden_stats(w):
 
 
 def gen_fault_plan(rng, st, prof):
-    kinds = prof.get("fault_kinds", ["crash-api", "crash-fn", "crash-step", "spurious"])
+    kinds = prof.get("fault_kinds", ["crash-api", "crash-fn", "crash-step", "spurious", "apierr-retry"])
     n = rng.choice(prof.get("faults_per_plan", [1, 1, 1, 2, 3]))
     plan = []
     for _ in range(n):
@@ -85,6 +85,11 @@ def gen_fault_plan(rng, st, prof):
                          "delta": rng.choice([-30.0, -2.0, -0.5, 0.5, 2.0, 30.0, 4000.0])})
         elif k == "spurious" and st["inv"] > 1:
             plan.append({"kind": "spurious", "after_inv": rng.randrange(1, st["inv"])})
+        elif k == "apierr-retry" and st["api"]:
+            # a failing API call (checkpoint or history page) of a class that makes the wrapper raise: Lambda retries the
+            # invocation, the execution goes on - one more way, besides crashes, in which an invocation ends half-way
+            plan.append({"kind": "apierr", "call": rng.randrange(1, st["api"] + 1), "err": rng.choice(["400", "403", "404"]),
+                         "applied": rng.random() < 0.3})
         elif k == "apierr" and st["api"]:
             plan.append({"kind": "apierr", "call": rng.randrange(1, st["api"] + 1),
                          "err": rng.choice(prof.get("err_classes", ["500", "503", "429", "400", "400tok", "403", "404", "conn"])),
